@@ -29,8 +29,8 @@ import (
 	"reduction.dev/reduction/proto/jobpb"
 	"reduction.dev/reduction/proto/snapshotpb"
 	"reduction.dev/reduction/proto/workerpb"
-	"reduction.dev/reduction/workers/operator"
 	"reduction.dev/reduction/util/verifhook"
+	"reduction.dev/reduction/workers/operator"
 	"verif/harness/mbt"
 )
 
